@@ -307,6 +307,10 @@ impl<T> J<T> {
 }
 
 impl<T> Task<T> {
+    /// The result is available (false also when the thread died).
+    pub fn is_done(&self) -> bool {
+        !self.rx.is_empty()
+    }
     pub fn join(&self, d: Duration) -> J<T> {
         match self.rx.recv_timeout(d) {
             Ok(t) => J::Done(t),
